@@ -46,6 +46,7 @@ func (t *Tracer) Emit(ev interface{}) {
 	if err := t.enc.Encode(ev); err != nil {
 		fatal2("trace encode: %v", err)
 	}
+	t.w.Flush() // nothing is lost if the code under test brings the process down
 	t.N++
 }
 
